@@ -334,6 +334,23 @@ def rule_drop_gated(ctx):
             ctx.violation("boxcar::Bucket::<T>::dealloc|loop-exit|1", site(fn, outer[0][0]),
                           "Bucket::dealloc leaves the entry loop before index `len`: entries behind a never-activated slot (panicking fill callback, short iterator) are never dropped — their items and columns leak")
             ok_range = None
+    # ... and the loop is entered unconditionally: a condition around the whole teardown (`if needs_drop::<T>()`, a length
+    # test) skips the matcher columns of every active entry -- they own heap memory whatever the item type is
+    for h_, body_, nxt_ in for_loops(fn):
+        if not any(bi in body_ for bi, t in drops):
+            continue
+        if any(body_ < ob and any(bi in ob for bi, t in drops) for oh, ob, on in for_loops(fn) if ob is not body_):
+            continue                       # an inner (per-column) loop
+        def only_len(e_):
+            leaves = [x for x in walk(e_) if x[0] in ("arg", "local", "field", "call", "index")]
+            return bool(leaves) and all(x[0] == "arg" and x[1] == 2 for x in leaves)
+        # (a test of the bucket length itself -- `if len != 0` -- skips nothing)
+        outer_guards = [g for g in guards_of(fn, h_) if g[0] not in body_ and not only_len(g[3])]
+        if outer_guards and ok_range:
+            ctx.violation("boxcar::Bucket::<T>::dealloc|loop-guard|1", site(fn, outer_guards[0][0]),
+                          "the per-entry teardown of Bucket::dealloc runs only under a condition (%s): when it is skipped the matcher columns (and items) of the active entries are "
+                          "never dropped before the bucket's memory is freed" % show(outer_guards[0][3])[:80])
+            ok_range = None
     if ok_range is None:
         pass
     elif ok_range:
